@@ -88,7 +88,7 @@ if report.get("confirmed"):
         if ALT:
             sh("git -C /repo worktree remove --force %s" % W)
         else:
-            sh("git -C /repo checkout -- .")
+            sh("git -C /repo checkout -- . && git -C /repo clean -fdq src tests")
     d = os.path.join("/verif/seeded", name)
     os.makedirs(d, exist_ok=True)
     shutil.copy(patch, d)
